@@ -123,7 +123,7 @@ PROPS = {
     "C01": {
         "alt_config": {"ops": ["rt"], "stride": 3},
         "gens": ["C01"],
-        "rule": "SCALE LADDER (sizes 15..1025 around every power of two; thorough to 4097): nesting depth for each wrapper kind and mixed, element / field / variant counts, string and byte lengths, several bodies per value; (every decode also runs with the OWNED hints deserialize_string / deserialize_byte_buf and must give the same result); op lines `rt <type> <value>` generated from one PRNG seed: exhaustive bool/u8/i8 (+u16/i16/char in thorough), per-width boundary sets, float classes, length/variant-index boundaries, the 29-kind corpus, random type trees (depth<=5) with well-typed values; every encode entry point (to_allocvec/stdvec/slice/vec/extend/io/size) and every decode entry point (from_bytes/take_from_bytes/from_io) is run per case; non-trivial = distinct op line whose encoding is >= 2 bytes",
+        "rule": "enums with ONE accepted discriminant anywhere in u32 (`rtsp`: 18 indices incl. 2^28, 2^31, u32::MAX x 4 variant shapes); zero-sized Rust types with non-empty encodings in hand-written seq / map impls, heapless vectors, arrays, tuples, derived types (`realrt`, harness/src/zst.rs); SCALE LADDER (sizes 15..1025 around every power of two; thorough to 4097): nesting depth for each wrapper kind and mixed, element / field / variant counts, string and byte lengths, several bodies per value; (every decode also runs with the OWNED hints deserialize_string / deserialize_byte_buf and must give the same result); op lines `rt <type> <value>` generated from one PRNG seed: exhaustive bool/u8/i8 (+u16/i16/char in thorough), per-width boundary sets, float classes, length/variant-index boundaries, the 29-kind corpus, random type trees (depth<=5) with well-typed values; every encode entry point (to_allocvec/stdvec/slice/vec/extend/io/size) and every decode entry point (from_bytes/take_from_bytes/from_io) is run per case; non-trivial = distinct op line whose encoding is >= 2 bytes",
         "nontrivial": lambda op, a: _enc_len(a) >= 2,
         "classify": lambda op, a: ("rt", _head(op), a.split(" ", 1)[0]),
         "diff_is_witness": False,
@@ -133,7 +133,7 @@ PROPS = {
     },
     "C02": {
         "gens": ["C02"],
-        "rule": "SCALE LADDER (sizes 15..1025 around every power of two; thorough to 4097): nesting depth for each wrapper kind and mixed, element / field / variant counts, string and byte lengths, several bodies per value; Display piece patterns incl. pieces longer than 64 bytes after short ones; op lines `spec <value>` (the C01 value stream without types), `serann` (announced seq/map lengths incl. unknown and every u64 varint boundary up to usize::MAX), `collect` (Display values written in random chunkings); the model answers from Spec.encode — the independent encoder transcribed from spec/src/wire-format.md; non-trivial = distinct op line whose answer is an error or >= 2 bytes",
+        "rule": "the `realrt` corpus (real Rust values incl. zero-sized types with non-empty encodings: bytes vs the model's encoding of the RECORDED call tree); sparse / wide enum discriminants; SCALE LADDER (sizes 15..1025 around every power of two; thorough to 4097): nesting depth for each wrapper kind and mixed, element / field / variant counts, string and byte lengths, several bodies per value; Display piece patterns incl. pieces longer than 64 bytes after short ones; op lines `spec <value>` (the C01 value stream without types), `serann` (announced seq/map lengths incl. unknown and every u64 varint boundary up to usize::MAX), `collect` (Display values written in random chunkings); the model answers from Spec.encode — the independent encoder transcribed from spec/src/wire-format.md; non-trivial = distinct op line whose answer is an error or >= 2 bytes",
         "nontrivial": lambda op, a: _enc_len(a) >= 2 or a.startswith("err"),
         "classify": lambda op, a: (op.split(" ", 1)[0], _head(op), a.split(" ", 1)[0]),
         "diff_is_witness": True,
@@ -144,7 +144,7 @@ PROPS = {
     "C03": {
         "alt_config": {"ops": ["de"], "stride": 25},
         "gens": ["C03"],
-        "rule": "SCALE LADDER (sizes 15..1025 around every power of two; thorough to 4097): nesting depth for each wrapper kind and mixed, element / field / variant counts, string and byte lengths, several bodies per value; each scale value as valid encoding, with a trailing byte, cut short, and with one flipped bit; op lines `de <type> <bytes>`: all byte strings of length <= 2 against 28 leaf/small types (strided in quick), max-length varints with every last byte per width, all u16 strings of length 3 (strided in quick), adversarial UTF-8 for char/str, and for random shapes: valid encodings, their strict prefixes, byte/bit corruptions, varint re-paddings, huge length prefixes, random bytes; compared on accept/reject, value, remainder and the error kinds the property names (others projected to `other`); non-trivial = distinct op line with >= 1 input byte",
+        "rule": "`desp`: enums with one accepted discriminant anywhere in u32 - valid, truncated, every byte corrupted, neighbouring discriminants; SCALE LADDER (sizes 15..1025 around every power of two; thorough to 4097): nesting depth for each wrapper kind and mixed, element / field / variant counts, string and byte lengths, several bodies per value; each scale value as valid encoding, with a trailing byte, cut short, and with one flipped bit; op lines `de <type> <bytes>`: all byte strings of length <= 2 against 28 leaf/small types (strided in quick), max-length varints with every last byte per width, all u16 strings of length 3 (strided in quick), adversarial UTF-8 for char/str, and for random shapes: valid encodings, their strict prefixes, byte/bit corruptions, varint re-paddings, huge length prefixes, random bytes; compared on accept/reject, value, remainder and the error kinds the property names (others projected to `other`); non-trivial = distinct op line with >= 1 input byte",
         "nontrivial": lambda op, a: not op.endswith(" x"),
         "project": _c03_project,
         "classify": lambda op, a: ("de", _head(op), " ".join(a.split(" ", 2)[:2]) if a.startswith("err") else "ok"),
@@ -155,7 +155,7 @@ PROPS = {
     },
     "C05": {
         "gens": ["C05"],
-        "rule": "`collectcap <framing> <storage> <cap> <piece>*`: a collect_str value whose Display writes the pieces, into bounded storage at every capacity (model: collectStrWith; error kind and buffer contents compared); op lines `sercap <framing> <storage> <cap> <value>` for every capacity 0..L+2 (L = complete output length; 8 capacities around L for long outputs), framing in {plain, cobs, 10 CRC algorithms}, storage in {slice between canary zones, heapless const-generic capacities}, plus `size <value>`; harness oracle: success iff cap >= L, bytes = unbounded output, at the front, rest of buffer untouched, canaries intact; non-trivial = distinct op line with cap within 2 of L",
+        "rule": "`flavseq <slice|hvec> <cap> <plain|cobs> <p:HH|e:HEX>*`: storage flavours driven through the public Flavor API with arbitrary push / extend sequences past buffer-full (compared up to the first error; finalize after an error must not panic on the plain storages; canaries); `collectcap <framing> <storage> <cap> <piece>*`: a collect_str value whose Display writes the pieces, into bounded storage at every capacity (model: collectStrWith; error kind and buffer contents compared); op lines `sercap <framing> <storage> <cap> <value>` for every capacity 0..L+2 (L = complete output length; 8 capacities around L for long outputs), framing in {plain, cobs, 10 CRC algorithms}, storage in {slice between canary zones, heapless const-generic capacities}, plus `size <value>`; harness oracle: success iff cap >= L, bytes = unbounded output, at the front, rest of buffer untouched, canaries intact; non-trivial = distinct op line with cap within 2 of L",
         "nontrivial": lambda op, a: True,
         "project": lambda op, a: (a.split(" mem=")[0] if a.startswith("err") else a),
         "classify": lambda op, a: tuple(op.split(" ", 3)[:3]) + (a.split(" ", 2)[0] + (" " + a.split(" ", 2)[1] if a.startswith("err") else ""),),
@@ -174,7 +174,7 @@ PROPS = {
     },
     "C07": {
         "gens": ["C07"],
-        "rule": "long first frames: payload length next to multiples of 254, in both accepted encodings (with / without the empty closing block), decoded as types whose length prefix claims -2..+2 around what the payload holds; `cobsde <type> <bytes>`: from_bytes_cobs and take_from_bytes_cobs on ALL byte strings of length <= 5 (7 in thorough) over {00,01,02,03,FF} x 4 target types, valid frames with every truncation and every position corrupted, random bytes, long 0xFF-code frames; buffers sit between canary zones and the bytes at/after the sentinel are compared before/after; non-trivial = distinct op line with >= 1 input byte",
+        "rule": "every long frame also UNTERMINATED (input ends where the sentinel would be, incl. right after a full 0xFF block); long first frames: payload length next to multiples of 254, in both accepted encodings (with / without the empty closing block), decoded as types whose length prefix claims -2..+2 around what the payload holds; `cobsde <type> <bytes>`: from_bytes_cobs and take_from_bytes_cobs on ALL byte strings of length <= 5 (7 in thorough) over {00,01,02,03,FF} x 4 target types, valid frames with every truncation and every position corrupted, random bytes, long 0xFF-code frames; buffers sit between canary zones and the bytes at/after the sentinel are compared before/after; non-trivial = distinct op line with >= 1 input byte",
         "nontrivial": lambda op, a: not op.endswith(" x"),
         "diff_is_witness": True,
         "exhaustive": {"quick": ["all 3,906 strings of length <= 5 over {00,01,02,03,FF} x 4 types"], "thorough": ["all 97,656 strings of length <= 7 x 4 types"]},
@@ -183,7 +183,7 @@ PROPS = {
     },
     "C08": {
         "gens": ["C08"],
-        "rule": "accumulators of capacity 255..1024 with frames of 250..514 payload bytes (whole, cut at block-relevant positions, byte by byte, back to back, behind garbage); (empty chunks are inserted into some histories and handed to feed once); `acc <N> <type> <chunk>*`: streams of valid/corrupt/empty/garbage segments (every segment fits) x EVERY one of the 2^(len-1) chunkings of streams of length <= 8 (13 in thorough) x capacities {longest, longest+1, 64} x 6 target types, plus long random histories; both feed and feed_ref; every FeedResult, remainder and the buffered bytes after every call are compared; harness oracle: one result per zero byte = isolated decoding, conservation; non-trivial = distinct op line with >= 2 chunks",
+        "rule": "every history also with feed and feed_ref MIXED on one accumulator (alternating both ways and an irregular pattern) - must equal feed alone; accumulators of capacity 255..1024 with frames of 250..514 payload bytes (whole, cut at block-relevant positions, byte by byte, back to back, behind garbage); (empty chunks are inserted into some histories and handed to feed once); `acc <N> <type> <chunk>*`: streams of valid/corrupt/empty/garbage segments (every segment fits) x EVERY one of the 2^(len-1) chunkings of streams of length <= 8 (13 in thorough) x capacities {longest, longest+1, 64} x 6 target types, plus long random histories; both feed and feed_ref; every FeedResult, remainder and the buffered bytes after every call are compared; harness oracle: one result per zero byte = isolated decoding, conservation; non-trivial = distinct op line with >= 2 chunks",
         "nontrivial": lambda op, a: op.count(" x") >= 2,
         "diff_is_witness": False,
         "exhaustive": {"quick": ["all chunkings of 60 streams of length <= 8"], "thorough": ["all chunkings of 400 streams of length <= 13"]},
@@ -192,7 +192,7 @@ PROPS = {
     },
     "C09": {
         "gens": ["C09"],
-        "rule": "accumulators of capacity 255..1024 with long frames incl. capacities too small for them; (empty chunks are inserted into some histories and handed to feed once); as C08 but with over-long segments, garbage and capacities equal to, one/two less than and one more than the longest segment, and capacities 1 and 2; harness oracle: no panic, loop terminates within 2*len+2 calls, buffer empty after a zero, over-long first segment reported OverFull, fitting frame after a zero delivered intact; non-trivial = distinct op line with >= 2 chunks",
+        "rule": "every history also with feed and feed_ref MIXED on one accumulator; accumulators of capacity 255..1024 with long frames incl. capacities too small for them; (empty chunks are inserted into some histories and handed to feed once); as C08 but with over-long segments, garbage and capacities equal to, one/two less than and one more than the longest segment, and capacities 1 and 2; harness oracle: no panic, loop terminates within 2*len+2 calls, buffer empty after a zero, over-long first segment reported OverFull, fitting frame after a zero delivered intact; non-trivial = distinct op line with >= 2 chunks",
         "nontrivial": lambda op, a: op.count(" x") >= 2,
         "diff_is_witness": False,
         "trusted_base": COMMON_TB + [SERDE_TB, "hook CobsAccumulator::verif_buffered exposes buf[..idx]"],
@@ -219,7 +219,7 @@ PROPS = {
     },
     "C15": {
         "gens": ["C15"],
-        "rule": "scale schemas (depth to 513, thorough 1025; width to 300 / 1025) and opaque names (r#-prefixed, whitespace, NUL, dots, 31..300 bytes); `pun <schema>`: the borrowed form (a leaked &'static tree built by hand, not via From) and its owned conversion are serialised with the real crate, compared with each other (oracle) and with the model's serde-derive encoding; the bytes (+ trailing bytes) are deserialised as OwnedDataModelType and compared with the conversion; `deowned <bytes>`: the owned deserialiser on valid / truncated / corrupted / short arbitrary bytes vs the model's decOwned; every one of the 26 node kinds + 4+4 data kinds is probed each run, plus random trees (depth <= 6, fan-out <= 5, names empty/ASCII/multi-byte); non-trivial = distinct op line",
+        "rule": "(before every op line `poison_schema` decodes a 2600-deep owned schema value and a truncated one: no per-thread state may survive); scale schemas (depth to 513, thorough 1025; width to 300 / 1025) and opaque names (r#-prefixed, whitespace, NUL, dots, 31..300 bytes); `pun <schema>`: the borrowed form (a leaked &'static tree built by hand, not via From) and its owned conversion are serialised with the real crate, compared with each other (oracle) and with the model's serde-derive encoding; the bytes (+ trailing bytes) are deserialised as OwnedDataModelType and compared with the conversion; `deowned <bytes>`: the owned deserialiser on valid / truncated / corrupted / short arbitrary bytes vs the model's decOwned; every one of the 26 node kinds + 4+4 data kinds is probed each run, plus random trees (depth <= 6, fan-out <= 5, names empty/ASCII/multi-byte); non-trivial = distinct op line",
         "nontrivial": lambda op, a: True,
         "diff_is_witness": False,
         "exhaustive": {"quick": ["all 30 variants of both schema enums"], "thorough": ["same"]},
@@ -236,7 +236,7 @@ PROPS = {
     },
     "C04": {
         "gens": ["C04"],
-        "rule": "(the C03 stream incl. its scale cases under guard pages; the `alloc` op additionally runs each concrete heap type through 8 framed decoders - five CRC widths incl. the crate-root crc32 wrappers, from_bytes_cobs, take_from_bytes_cobs - under the counting allocator); `deg <type> <bytes>`: the C03 adversarial stream (subsampled) decoded with the input copied flush against PROT_NONE pages on the right and on the left (a read outside the input is a SIGSEGV attributed to the op line), through the slice path and the reader path (scratch buffer also guarded, three scratch sizes), with every borrowed str/bytes checked to lie inside the input right after its length prefix, ordered and disjoint, and every sequence size hint <= input length; `alloc <concrete type> <bytes>`: 10 heap-allocating Rust types (Vec<u8/u64/u128>, String, Vec<String>, Vec<Vec<u16>>, ...) decoded from adversarial length prefixes up to u64::MAX under a counting allocator with bound K_T*len+1024; any/identifier/ignored requests; non-trivial = distinct op line with >= 1 input byte",
+        "rule": "`deseq`: ONE Deserializer::from_flavor(IOReader / EIOReader) decodes several values and is used AGAIN after a value failed (scratch exhausted, fault, malformed), then finalized - compared up to the first error, afterwards borrowed slots and the returned scratch must stay inside the buffer (guard pages) and disjoint; (the C03 stream incl. its scale cases under guard pages; the `alloc` op additionally runs each concrete heap type through 8 framed decoders - five CRC widths incl. the crate-root crc32 wrappers, from_bytes_cobs, take_from_bytes_cobs - under the counting allocator); `deg <type> <bytes>`: the C03 adversarial stream (subsampled) decoded with the input copied flush against PROT_NONE pages on the right and on the left (a read outside the input is a SIGSEGV attributed to the op line), through the slice path and the reader path (scratch buffer also guarded, three scratch sizes), with every borrowed str/bytes checked to lie inside the input right after its length prefix, ordered and disjoint, and every sequence size hint <= input length; `alloc <concrete type> <bytes>`: 10 heap-allocating Rust types (Vec<u8/u64/u128>, String, Vec<String>, Vec<Vec<u16>>, ...) decoded from adversarial length prefixes up to u64::MAX under a counting allocator with bound K_T*len+1024; any/identifier/ignored requests; non-trivial = distinct op line with >= 1 input byte",
         "nontrivial": lambda op, a: not op.endswith(" x"),
         "project": _c03_project_keep_wont,
         "diff_is_witness": True,
@@ -248,7 +248,7 @@ PROPS = {
         "project": c12_project,
         "joint": c12_joint,
         "derive_programs": {"quick": 40, "thorough": 300},
-        "rule": "heapless::Vec<(), N> for N at every varint-width boundary up to 2^22; derive programs always contain 127/128/129/130-variant enums (all-unit and widest-last); `maxsize <type description>`: T::POSTCARD_MAX_SIZE of a concrete Rust type vs the model's maxSize, for 66 built-in instantiations (every impl: ints, NonZero*, floats, bool, char, unit, PhantomData, Option, Result, arrays, tuples 1..6, the four ranges, refs/Box/Rc/Arc, heapless Vec/String at capacities 0,1,127,128,16383,16384, hand-written derives incl. generics) plus random #[derive(MaxSize)] programs generated from the seed with the WORKSPACE derive (structs unit/tuple/named, enums with 0,1,2,..,127,128,129 variants, nested); harness oracle per type: every candidate (one per variant, extremes of every field) and 24 random values encode within the constant, a buffer of that size suffices, and for the tight kinds the constant is attained; non-trivial = distinct type",
+        "rule": "DECIDED per type by the joint rule N >= encMax (= for the kinds the property lists as tight), encMax = the proved exact supremum; heapless::Vec<(), N> for N at every varint-width boundary up to 2^22; derive programs always contain 127/128/129/130-variant enums (all-unit and widest-last); `maxsize <type description>`: T::POSTCARD_MAX_SIZE of a concrete Rust type vs the model's maxSize, for 66 built-in instantiations (every impl: ints, NonZero*, floats, bool, char, unit, PhantomData, Option, Result, arrays, tuples 1..6, the four ranges, refs/Box/Rc/Arc, heapless Vec/String at capacities 0,1,127,128,16383,16384, hand-written derives incl. generics) plus random #[derive(MaxSize)] programs generated from the seed with the WORKSPACE derive (structs unit/tuple/named, enums with 0,1,2,..,127,128,129 variants, nested); harness oracle per type: every candidate (one per variant, extremes of every field) and 24 random values encode within the constant, a buffer of that size suffices, and for the tight kinds the constant is attained; non-trivial = distinct type",
         "nontrivial": lambda op, a: True,
         "diff_is_witness": False,
         "trusted_base": COMMON_TB + [SERDE_TB, "proc-macro machinery around the derive is MODELLED (only its field/variant arithmetic)", "postcard's `experimental-derive` feature resolves to the registry's postcard-derive 0.1.2 (outside /repo); the checks use the workspace derive source/postcard-derive"],
@@ -257,7 +257,7 @@ PROPS = {
     "C13": {
         "alt_config": {"ops": ["fix"]},
         "gens": ["C13"],
-        "rule": "every `fix` case also goes through to_slice / to_vec / to_io / serialized_size and from_bytes / from_io / from_eio with an EMPTY scratch buffer (whole and 1-byte reads) / COBS / CRC; `fix <le|be> <type> <int>`: a struct field with #[serde(with = postcard::fixint::le|be)] for all 8 types x 2 orders: boundary sets, every single-byte-nonzero pattern, random values, u16/i16 strided (entire domain in thorough); oracle: bytes = to_le_bytes/to_be_bytes, decodes back with the remainder intact; non-trivial = distinct op line",
+        "rule": "a TRANSIENT reader fault at every offset inside every fixint (from_io / from_eio with ample scratch must fail, never assemble a value around the gap); every `fix` case also goes through to_slice / to_vec / to_io / serialized_size and from_bytes / from_io / from_eio with an EMPTY scratch buffer (whole and 1-byte reads) / COBS / CRC; `fix <le|be> <type> <int>`: a struct field with #[serde(with = postcard::fixint::le|be)] for all 8 types x 2 orders: boundary sets, every single-byte-nonzero pattern, random values, u16/i16 strided (entire domain in thorough); oracle: bytes = to_le_bytes/to_be_bytes, decodes back with the remainder intact; non-trivial = distinct op line",
         "nontrivial": lambda op, a: True,
         "diff_is_witness": False,
         "exhaustive": {"quick": [], "thorough": ["u16 and i16, both byte orders"]},
@@ -266,7 +266,7 @@ PROPS = {
     },
     "C11": {
         "gens": ["C11"],
-        "rule": "writer adapters std | stdzero (a full sink answers Ok(0)) | stdintr (Interrupted results in between) | eio; random-schedule readers also interleave Interrupted; `wio <std|eio> <failAt> <schedule> <value>`: to_io / to_eio through a byte writer that accepts data in whole, 1-byte or seeded random short pieces and fails at EVERY absolute byte offset 0..L+1 of the encoding; `rio <std|eio> <fault> <scratch> <schedule> <count> <type> <stream>`: from_io / from_eio decoding 1..5 consecutive messages from one reader delivering whole / random short reads, with scratch sizes 0..need+1, a fault injected at every byte offset of the transfer, trailing bytes, one-message-too-many (EOF) and truncated streams; the scratch buffer sits against an inaccessible page; harness oracle: bytes handed to the writer are a prefix of the plain encoding, reader value = slice value, reader advanced by exactly the message length, borrowed data inside the scratch buffer, disjoint and ordered; non-trivial = distinct op line",
+        "rule": "`deseq` (one Deserializer over a reader used again after a failed value); writers implement write_vectored NATIVELY (short vectored writes); `rio <adapter>tr`: TRANSIENT reader faults (one error, then the data continues) at every offset; writer adapters std | stdzero (a full sink answers Ok(0)) | stdintr (Interrupted results in between) | eio; random-schedule readers also interleave Interrupted; `wio <std|eio> <failAt> <schedule> <value>`: to_io / to_eio through a byte writer that accepts data in whole, 1-byte or seeded random short pieces and fails at EVERY absolute byte offset 0..L+1 of the encoding; `rio <std|eio> <fault> <scratch> <schedule> <count> <type> <stream>`: from_io / from_eio decoding 1..5 consecutive messages from one reader delivering whole / random short reads, with scratch sizes 0..need+1, a fault injected at every byte offset of the transfer, trailing bytes, one-message-too-many (EOF) and truncated streams; the scratch buffer sits against an inaccessible page; harness oracle: bytes handed to the writer are a prefix of the plain encoding, reader value = slice value, reader advanced by exactly the message length, borrowed data inside the scratch buffer, disjoint and ordered; non-trivial = distinct op line",
         "nontrivial": lambda op, a: True,
         "diff_is_witness": False,
         "trusted_base": COMMON_TB + [SERDE_TB, CORE_TB, "std::io / embedded-io read_exact and write_all are MODELLED (all-or-error; partial read/write schedules inside them are invisible by their contract) and exercised with scheduled Read/Write impls", "embedded-io 0.6 adapter only (0.4 and 0.6 are mutually exclusive features of the crate; 0.4 shares the same source text)"],
@@ -296,7 +296,7 @@ PROPS = {
         "gens": ["C17"],
         "derive_programs": {"quick": 30, "thorough": 200},
         "derive_kind": "schema",
-        "rule": "corpus incl. ManyOpts / ManyRows (127..1025 elements, mostly None), explicit-discriminant enums; `dynagree <schema> <json> <bytes>`: REAL data of the C14 corpus (~150 concrete Rust types with Schema + Serialize: every integer width, chars, strings, byte slices, options, sequences, tuples and arrays of arity 0/1/n, structs of all four forms incl. zero-field ones, enums with all four variant forms, nested, string-keyed maps, the schema-of-schema kind, seed-generated derive programs) and candidate + random values, filtered to the property's scope by the harness (recorded call tree: integers within i64/u64, finite floats, string-keyed ascending maps, no Some(x) with JSON null): T::SCHEMA, serde_json::to_value(v), postcard::to_allocvec(v); the real to_stdvec_dyn / from_slice_dyn answers are compared with the model's and (oracle) with the static bytes / the JSON; non-trivial = distinct op line",
+        "rule": "corpus incl. sequences of named-field structs of zero-width fields (Ticks, TicksLast) and two different enums of the same name and arity in one schema (TwoStates); corpus incl. ManyOpts / ManyRows (127..1025 elements, mostly None), explicit-discriminant enums; `dynagree <schema> <json> <bytes>`: REAL data of the C14 corpus (~150 concrete Rust types with Schema + Serialize: every integer width, chars, strings, byte slices, options, sequences, tuples and arrays of arity 0/1/n, structs of all four forms incl. zero-field ones, enums with all four variant forms, nested, string-keyed maps, the schema-of-schema kind, seed-generated derive programs) and candidate + random values, filtered to the property's scope by the harness (recorded call tree: integers within i64/u64, finite floats, string-keyed ascending maps, no Some(x) with JSON null): T::SCHEMA, serde_json::to_value(v), postcard::to_allocvec(v); the real to_stdvec_dyn / from_slice_dyn answers are compared with the model's and (oracle) with the static bytes / the JSON; non-trivial = distinct op line",
         "nontrivial": lambda op, a: True,
         "diff_is_witness": False,
         "trusted_base": COMMON_TB + [SERDE_TB, "serde_json (Value, Number, Map = BTreeMap, to_value / from_value) is MODELLED (Model/Json.lean, JsonOf.lean)", "IEEE conversions are a parameter `FloatOps` of the model (hypotheses `FloatOk` in the theorems), instantiated with Lean's hardware Float/Float32 in the driver"],
